@@ -354,3 +354,98 @@ M("C04.complete_ok_empty_ctxt", "C04", "src/macro_hooks.rs",
             span.to_event()
                 .with_tpl(self.tpl.by_ref())
                 .map_props(|span_props| lvl_prop.and_props(span_props)),""", "C04.S4")
+
+# ---- C06 / C07 / C08 / C09 (emit_batcher) ------------------------------------------------------------
+M("C06.send_two_locks", ["C06"], "batcher/src/lib.rs",
+  """        let mut state = self.shared.state.lock().unwrap();
+
+        // If the channel is full then drop it; this prevents OOMing
+        // when the destination is unavailable. We don't notify the batch
+        // in this case because the clearing is opaque to outside observers
+        if state.next_batch.channel.len() >= self.max_capacity {
+            state.next_batch.channel.clear();
+            self.shared.metrics.queue_full_truncated.increment();
+        }
+""",
+  """        {
+            let mut state = self.shared.state.lock().unwrap();
+            if state.next_batch.channel.len() >= self.max_capacity {
+                state.next_batch.channel.clear();
+                self.shared.metrics.queue_full_truncated.increment();
+            }
+        }
+        let mut state = self.shared.state.lock().unwrap();
+""", "C06.R1")
+M("C06.retry_fresh_watchers", ["C06", "C07"], "batcher/src/lib.rs",
+  "                                                watchers: current_batch.watchers,",
+  "                                                watchers: Watchers::new(),", ["C06.R4", "C07.R4"])
+M("C06.truncation_not_counted", ["C06", "C09"], "batcher/src/lib.rs",
+  "            state.next_batch.channel.clear();\n            self.shared.metrics.queue_full_truncated.increment();",
+  "            state.next_batch.channel.clear();", ["C06.R3", "C09.R3"])
+M("C07.when_flushed_ignores_in_batch", ["C07"], "batcher/src/lib.rs",
+  "        if !state.is_in_batch && (state.next_batch.channel.is_empty() || !state.is_open) {",
+  "        if state.next_batch.channel.is_empty() || !state.is_open {", "C07.R1")
+M("C07.notify_inside_retry_loop", ["C07"], "batcher/src/lib.rs",
+  """                                Ok(Err(BatchError { retryable })) => {
+                                    self.shared.metrics.queue_batch_failed.increment();
+""",
+  """                                Ok(Err(BatchError { retryable })) => {
+                                    self.shared.metrics.queue_batch_failed.increment();
+                                    current_batch.watchers.notify_on_flush();
+""", "C07.R3")
+M("C08.catch_unwind_removed", ["C08"], "batcher/src/lib.rs",
+  "                    match panic::catch_unwind(AssertUnwindSafe(|| on_batch(current_batch.channel)))\n                    {",
+  "                    match Ok::<_, Box<dyn Any + Send>>(on_batch(current_batch.channel))\n                    {", "C08.R1")
+M("C08.retry_ignores_budget", ["C08"], "batcher/src/lib.rs",
+  "                                        if retryable.len() > 0 && self.retry.next() {",
+  "                                        if retryable.len() > 0 {", "C08.R2")
+M("C08.callback_under_lock", ["C08"], "batcher/src/lib.rs",
+  """        if state.next_batch.channel.is_empty() {
+            drop(state);
+
+            f();""",
+  """        if state.next_batch.channel.is_empty() {
+            f();
+            drop(state);""", "C08.R3")
+M("C08.exec_returns_before_swap", ["C08", "C06"], "batcher/src/lib.rs",
+  """                let mut state = self.shared.state.lock().unwrap();
+
+                // NOTE: We don't check the `is_open` value here because we want a chance to emit
+                // any last batch
+
+                // If there are events then mark that we're in a batch and replace it with an empty one""",
+  """                let mut state = self.shared.state.lock().unwrap();
+
+                if !state.is_open {
+                    return;
+                }
+
+                // If there are events then mark that we're in a batch and replace it with an empty one""", ["C08.R4", "C06.R4"])
+M("C08.tokio_block_on(reverse of fix)", ["C08"], "batcher/src/tokio.rs",
+  """        Ok(handle) if handle.runtime_flavor() == tokio::runtime::RuntimeFlavor::MultiThread => {
+            tokio::task::block_in_place(|| sync::blocking_flush(sender, timeout))
+        }""",
+  """        Ok(handle) if handle.runtime_flavor() == tokio::runtime::RuntimeFlavor::MultiThread => {
+            handle.block_on(flush(sender, timeout))
+        }""", "C08.R5")
+M("C08.block_in_place_any_flavor", ["C08"], "batcher/src/tokio.rs",
+  """        Ok(handle) if handle.runtime_flavor() == tokio::runtime::RuntimeFlavor::MultiThread => {
+            tokio::task::block_in_place(|| sync::blocking_flush(sender, timeout))
+        }""",
+  """        Ok(_) => {
+            tokio::task::block_in_place(|| sync::blocking_flush(sender, timeout))
+        }""", "C08.R5")
+M("C09.send_gt_instead_of_ge", ["C09"], "batcher/src/lib.rs",
+  "        if state.next_batch.channel.len() >= self.max_capacity {\n            state.next_batch.channel.clear();",
+  "        if state.next_batch.channel.len() > self.max_capacity {\n            state.next_batch.channel.clear();", "C09.R1")
+M("C09.try_send_full_no_retry", ["C09"], "batcher/src/lib.rs",
+  """            Err(BatchError::retry(TrySendError("the channel is full"), msg))""",
+  """            { drop(msg); Err(BatchError::no_retry(TrySendError("the channel is full"))) }""", "C09.R2")
+M("C09.file_emit_blocking_send", ["C09"], "emitter/file/src/lib.rs",
+  "                self.sender.send(buf.into_boxed_slice());",
+  "                let _ = emit_batcher::blocking_send(&self.sender, buf.into_boxed_slice(), std::time::Duration::from_secs(1));", "C09.R4")
+M("C09.event_batch_clear(reverse of fix 43294a4)", ["C09"], "emitter/file/src/lib.rs",
+  """        self.bufs.clear();
+        self.remaining_bytes = 0;
+        self.index = 0;""",
+  """        self.bufs.clear();""", "C09.R5")
